@@ -39,7 +39,7 @@ CHECKS = {
          "SignedDuration arithmetic is compared with exact arithmetic on a signed 128-bit nanosecond count (floats with exact dyadic expansions), overflow verdicts must be exact, panicking functions must panic exactly when the exact result is unrepresentable in both builds; Span limits, sign invariant and fieldwise semantics are enumerated over all orders."),
  "C13": E("E2", "explicit-state breadth-first search (stateright) over operation histories: states (instant, zone, depth), 78 expanding actions and 592 probe actions (every public producer of a Zoned: constructors, arithmetic with all operand types, navigation, rounding, the with() option product, zone changes, Temporal/strptime/RFC 2822 parsing with all conflict options) each executing the real jiff operation; invariant (offset, model-recomputed civil datetime and 29 accessors, zone, Eq/Ord/Hash against neighbours, clone) evaluated on every produced Zoned before canonicalisation; depth 3 (quick), wide/deep4/deep7-core runs (thorough), run to exhaustion",
          "All Zoned values reachable by any sequence of the action alphabet up to the depth bound from transition-biased initial states are generated by the real operations; offset/civil consistency with the zone, instant-only equality/ordering/hash and instant preservation on zone change are checked on every one."),
- "C14": E("E1", "exhaustive enumeration: following()/preceding() from every probe instant (first items) and to exhaustion from the range limits, for every zone, against the reference breakpoint list with omission/spurious/order/info/direct-lookup checks; thorough walks every rule year to 9999 once per (origin, footer) class (states with equal footers have equal futures in the rule-generated part) and the recorded part, hand-over and rule-year windows of every zone",
+ "C14": E("E1", "exhaustive enumeration: following()/preceding() from every probe instant (first items) and to exhaustion from the range limits, for every zone, against the reference breakpoint list with omission/spurious/order/info/direct-lookup checks; thorough walks every zone over every rule year to 9999, quick the representative zones plus rule-year windows and every 97th year for the others; static (get!/include!) zones and 18 hand-built TZif files; iterator contract (fused, clone, size_hint); following(MIN) compared with reversed preceding(MAX)",
          "Every yielded transition is matched against the model's list of info-changing breakpoints (recorded no-ops allowed), omissions are detected by walking both lists, and direct lookups just before/at each item are compared, across the recorded/rule-generated boundary."),
  "C15": E("E1", "complete product of friendly printer options (82,944 quick / 411,264 thorough configurations + 184,320 zero-unit configurations + ISO variants) x span and duration boundary pools (889 / 238 values); an independent reader of both grammars (never calls jiff) gives the exact i128 value of every printed text; lossless/lossy oracles; documented text shape of every option",
          "Every printed text must parse, and both the parser's value and the original are compared with the independent reading of the text; lossless configurations must round-trip unit for unit (or total for sub-second folding), lossy ones within one unit of the last printed digit, computed exactly."),
